@@ -93,16 +93,19 @@ sharing the type variable) — yields outputs `vs`, the emitted graph evaluates 
 input and **every** meaning of the operators.  Two named assumptions about operators: `Constant` of a
 literal always evaluates (`hConst`), and `Identity` is the identity (`hId`; the converter copies returned
 inputs and duplicate outputs through `Identity`).
-`_partial`: `if` / `for` / `while` / tuple assignment and attribute parameters are not covered; for `while`
+Attribute parameters may be declared and forwarded to operators as attributes (`op.Foo(x, alpha=alpha)`: the node
+carries the reference `@alpha`, both sides read it through `S`); *reading* one as a value is outside (the plain-Python
+side of this model gives it no value, so `he` fails).
+`_partial`: `if` / `for` / `while` / tuple assignment are not covered here (stages 2-4); for `while`
 with a trailing break and for literals crossing an `if` the statement is false for the code as it is (below). -/
 theorem convert_correct_partial {V : Type} (S : Sem V)
     (hConst : ∀ l, ∃ c, constOf S l = some c)
     (hId : ∀ v, S.op "" "Identity" [some v] [] = some [v])
-    (f : Func) (g : Graph) (hsl : straightLine f.body = true) (hten : AllTensorParams f.params)
+    (f : Func) (g : Graph) (hsl : straightLine f.body = true)
     (hnames : (f.params.map Param.name).Nodup) (h : convert f = .ok g)
     (fuel : Nat) (args vs : List V) (he : evalFunc S fuel f args = some vs) :
     evalGraph S fuel g args = some vs :=
-  convert_correct_sl S hConst hId hsl hten hnames h he
+  convert_correct_sl S hConst hId hsl hnames h he
 
 /-- Non-vacuity: `x = A + 1; y = x != B; return y, A` is straight-line, accepted, and evaluates under a
 concrete operator meaning. -/
@@ -138,23 +141,26 @@ example : straightLine slDemo.body = true ∧ (convert slDemo).toOption.isSome =
 function whose body consists of assignments and parallel assignments of tensor-valued expressions (anything
 but a bare or negated literal), docstrings, and `if <expr>: … else: …` over such statements — branches may
 assign a variable in one branch only, define new variables, alias outer values, nest further `if`s — followed
-by `return e1, …, en`, with tensor parameters of distinct names: whenever the model converter accepts it and
+by `return e1, …, en`, with parameters of distinct names: whenever the model converter accepts it and
 reading the source as plain Python over tensors yields outputs `vs`, the emitted graph — `If` nodes with
 subgraphs, their outputs `assigned ∩ live_out`, `Identity` copies of outer values — evaluates to exactly `vs`,
 for **every** input and **every** meaning of the operators (`Constant` total, `Identity` the identity).
 The proof is a forward simulation whose invariant relates only the *live* Python variables to ONNX values
 (`OV.C01.Inv`); it uses `liveness` pass-through, the freshness and scoping theorems of C02, and the castable
 bookkeeping of the un-executed branch.
-`_partial`: loops are not covered here (see `convert_correct_for_partial`), nor tuple assignment and attribute
-parameters; a bare literal may not be *assigned* (it would lose its polymorphism at the `If` boundary: C01-D24). -/
+Attribute parameters: as in stage 1, provided no attribute parameter is re-bound anywhere in the body (`hattr`; a
+re-bound one would have to leave an `If` as a value in one branch and as an attribute in the other).
+`_partial`: loops are not covered here (see `convert_correct_for_partial`), nor tuple assignment; attribute
+parameters only as forwarded operator attributes; a bare literal may not be *assigned* (it would lose its polymorphism at the `If` boundary: C01-D24). -/
 theorem convert_correct_ite_partial {V : Type} (S : Sem V)
     (hConst : ∀ l, ∃ c, constOf S l = some c)
     (hId : ∀ v, S.op "" "Identity" [some v] [] = some [v])
-    (f : Func) (g : Graph) (hil : ifLine f.body = true) (hten : AllTensorParams f.params)
+    (f : Func) (g : Graph) (hil : ifLine f.body = true)
+    (hattr : ∀ p, p ∈ attrParams f.params → p ∉ targetsBlock f.body)
     (hnames : (f.params.map Param.name).Nodup) (h : convert f = .ok g)
     (fuel : Nat) (args vs : List V) (he : evalFunc S fuel f args = some vs) :
     evalGraph S fuel g args = some vs :=
-  convert_correct_if S hConst hId hil hten hnames h he
+  convert_correct_if S hConst hId hil hattr hnames h he
 
 /-- Non-vacuity: `x = A + 1; if c: y = x != B  else: (if d: y = x  else: x = B; y = x + 1); return y, x` —
 `y` defined in both branches, `x` re-assigned in one inner branch only, an outer value aliased in a branch. -/
@@ -188,7 +194,8 @@ takes `(i, cond_in, state…)`, computes `cond_out` as `Identity(cond_in)` / `No
 `And(t, Not(b))` for `while`, and whose state is `assigned ∩ (exposed uses ∪ live_out)` in sorted order —
 evaluates to exactly `vs` at some fuel (hence at every larger one: `evalGraph_fuel_mono`), for **every** input,
 trip count and operator meaning (`Constant` total, `Identity` the identity, `true` truthy, `Not` negating truth,
-`And` with a false right operand false and with a true one as true as its left operand).
+`And` with a false right operand false and with a true one as true as its left operand, and — `hNat` — the constant
+of an integer literal `k` read as the trip count `max k 0`, so that the bound may be a literal: `range(3)`).
 The proof is a simulation by induction on the remaining trip count (`for`) resp. on the source fuel (`while`)
 with the invariant of stage 2 (`OV.C01.Inv`) re-established at the head of every iteration (`OV.C01.for_step`,
 `forB_step`, `while_core`, `whileB_core`); after a `break` the ONNX loop stops on the false `cond_out` with the
@@ -198,19 +205,22 @@ loop-carried or recomputed in the body before anything reads it; both — the li
 fixpoint (`stableStmt`; the real analysis iterates until it does).  That a `for` variable is not read after the
 loop is not a hypothesis: such loops are refused (`loop_variable_live_after_loop_refused`); that a `while` body
 cannot see the iteration counter holds since 0fa00ae (C01-D39).
-`_partial`: no loop nested in a loop or in a branch, no tuple assignment, no attribute parameters. -/
+`_partial`: no loop nested in a loop or in a branch, no tuple assignment (both: stage 4); attribute parameters only
+as forwarded operator attributes and never re-bound (`hattr`). -/
 theorem convert_correct_for_partial {V : Type} (S : Sem V)
     (hConst : ∀ l, ∃ c, constOf S l = some c)
     (hId : ∀ v, S.op "" "Identity" [some v] [] = some [v])
     (hT : S.truth (S.ofBool true) = some true)
+    (hNat : ∀ k c, constOf S (.int k) = some c → S.natOf c = some k.toNat)
     (hNot : ∀ v b, S.truth v = some b → ∃ w, S.op "" "Not" [some v] [] = some [w] ∧ S.truth w = some (!b))
     (hAnd : ∀ x y yb, S.truth y = some yb → ∃ w, S.op "" "And" [some x, some y] [] = some [w] ∧
       (yb = false → S.truth w = some false) ∧ (yb = true → S.truth w = S.truth x))
-    (f : Func) (g : Graph) (hfl : forLine f.body = true) (hten : AllTensorParams f.params)
+    (f : Func) (g : Graph) (hfl : forLine f.body = true)
+    (hattr : ∀ p, p ∈ attrParams f.params → p ∉ targetsBlock f.body)
     (hnames : (f.params.map Param.name).Nodup) (h : convert f = .ok g)
     (fuel : Nat) (args vs : List V) (he : evalFunc S fuel f args = some vs) :
     ∃ fuel', evalGraph S fuel' g args = some vs :=
-  convert_correct_for S hConst hId hT hNot hAnd hfl hten hnames h he
+  convert_correct_for S hConst hId hT hNat hNot hAnd hfl hattr hnames h he
 
 /-- Graph evaluation is monotone in the fuel, so "some fuel" above means "every large enough fuel". -/
 theorem evalGraph_fuel_mono {V : Type} (S : Sem V) (g : Graph) (args vs : List V) (f f' : Nat) (hle : f ≤ f')
@@ -293,19 +303,22 @@ Side conditions (`nestStmt`), per loop at its own live-out set: those of stage 3
 the body, `while` condition variable loop-carried or recomputed before any read, liveness fixpoint reached), and —
 listed explicitly although acceptance implies it (`loop_variable_live_after_loop_refused`) — the `for` variable
 not live after its loop.
-`_partial`: a trailing `break` only in top-level loops over `if`-fragment bodies; no attribute parameters. -/
+`_partial`: a trailing `break` only in top-level loops over `if`-fragment bodies; attribute parameters only as
+forwarded operator attributes and never re-bound (`hattr`). -/
 theorem convert_correct_nested_partial {V : Type} (S : Sem V)
     (hConst : ∀ l, ∃ c, constOf S l = some c)
     (hId : ∀ v, S.op "" "Identity" [some v] [] = some [v])
     (hT : S.truth (S.ofBool true) = some true)
+    (hNat : ∀ k c, constOf S (.int k) = some c → S.natOf c = some k.toNat)
     (hNot : ∀ v b, S.truth v = some b → ∃ w, S.op "" "Not" [some v] [] = some [w] ∧ S.truth w = some (!b))
     (hAnd : ∀ x y yb, S.truth y = some yb → ∃ w, S.op "" "And" [some x, some y] [] = some [w] ∧
       (yb = false → S.truth w = some false) ∧ (yb = true → S.truth w = S.truth x))
-    (f : Func) (g : Graph) (hnl : nestLine f.body = true) (hten : AllTensorParams f.params)
+    (f : Func) (g : Graph) (hnl : nestLine f.body = true)
+    (hattr : ∀ p, p ∈ attrParams f.params → p ∉ targetsBlock f.body)
     (hnames : (f.params.map Param.name).Nodup) (h : convert f = .ok g)
     (fuel : Nat) (args vs : List V) (he : evalFunc S fuel f args = some vs) :
     ∃ fuel', evalGraph S fuel' g args = some vs :=
-  convert_correct_nest S hConst hId hT hNot hAnd hnl hten hnames h he
+  convert_correct_nest S hConst hId hT hNat hNot hAnd hnl hattr hnames h he
 
 /-- Non-vacuity: a loop in a loop (the inner trip count `rem` shrinks to zero in later outer iterations, `t` is
 only assigned by the inner loop and read after it), an `if` in the inner loop, and a loop in a branch:
@@ -366,6 +379,67 @@ example : nestLine tupleDemo.body = true ∧ forLine tupleDemo.body = false
     ∧ evalFunc S2 0 tupleDemo [1, 3] = some [15]
     ∧ (match convert tupleDemo with
        | .ok g => evalGraph S2 8 g [1, 3] == some [15]
+       | .error _ => false) = true := by
+  refine ⟨by decide +kernel, by decide +kernel, by decide +kernel, by decide +kernel⟩
+
+/-- Non-vacuity of the literal-bound part: `acc = A; for i in range(3): acc = acc + acc; return acc`, under a meaning
+that reads the literal's constant as the trip count. -/
+def litBoundDemo : Func :=
+  { name := "f", params := [.tensor "A"], retCount := none,
+    body := [
+      .assign "acc" (.var "A"),
+      .for_ "i" true (.lit (.int 3)) [.assign "acc" (.binop "Add" (.var "acc") (.var "acc"))],
+      .ret [.var "acc"] false] }
+
+def S4 : Sem Int where
+  op := fun _ name ins attrs =>
+    match name, ins with
+    | "Constant", [] => (match attrs with | [(_, .const "i:3")] => some [3] | _ => some [0])
+    | "Add", [some a, some b] => some [a + b]
+    | "Identity", [some a] => some [a]
+    | _, _ => none
+  truth := fun v => some (v ≠ 0)
+  natOf := fun v => some v.toNat
+  ofNat := fun n => Int.ofNat n
+  ofBool := fun b => if b then 1 else 0
+
+example : forLine litBoundDemo.body = true ∧ nestLine litBoundDemo.body = true
+    ∧ evalFunc S4 0 litBoundDemo [5] = some [40]
+    ∧ (match convert litBoundDemo with
+       | .ok g => evalGraph S4 6 g [5] == some [40]
+       | .error _ => false) = true := by
+  refine ⟨by decide +kernel, by decide +kernel, by decide +kernel, by decide +kernel⟩
+
+/-- Operators over `Int` with one that reads an attribute: `Scale(a, alpha=@alpha)` is `3·a` (the meaning `S` closes
+over the attribute's value), `Scale(a, alpha=<const>)` is `a`. -/
+def S3 : Sem Int where
+  op := fun _ name ins attrs =>
+    match name, ins with
+    | "Scale", [some a] => (match attrs with | [(_, .ref "alpha")] => some [3 * a] | _ => some [a])
+    | "Identity", [some a] => some [a]
+    | _, _ => none
+  truth := fun v => some (v ≠ 0)
+  natOf := fun v => some v.toNat
+  ofNat := fun n => Int.ofNat n
+  ofBool := fun b => if b then 1 else 0
+
+/-- Non-vacuity of the attribute-parameter part: `def f(A, n, alpha: float, unused: int): acc = A;
+for i in range(n): acc = op.Scale(acc, alpha=alpha); return acc` — an attribute parameter forwarded to an operator
+inside a loop and one that is never used; `hattr` holds (neither is assigned). -/
+def attrDemo : Func :=
+  { name := "f", params := [.tensor "A", .tensor "n", .attr "alpha" .float, .attr "unused" .int], retCount := none,
+    body := [
+      .assign "acc" (.var "A"),
+      .for_ "i" true (.var "n")
+        [.assign "acc" (.call "" "Scale" { known := false, variadic := false, homog := false, tvs := [] }
+          [.var "acc"] [("alpha", .ref "alpha")])],
+      .ret [.var "acc"] false] }
+
+example : nestLine attrDemo.body = true
+    ∧ (attrParams attrDemo.params).all (fun p => !(targetsBlock attrDemo.body).contains p) = true
+    ∧ evalFunc S3 0 attrDemo [2, 3] = some [54]
+    ∧ (match convert attrDemo with
+       | .ok g => evalGraph S3 8 g [2, 3] == some [54]
        | .error _ => false) = true := by
   refine ⟨by decide +kernel, by decide +kernel, by decide +kernel, by decide +kernel⟩
 
